@@ -101,7 +101,8 @@ static int offer(const void * e, void * p)
     (void)p;
     if (on < MAXLOG) olog[on] = id;
     on++;
-    for (i = 0; i < nacc; i++) if (acc[i] == id) return 1;
+    /* acceptance is any non-zero value: vary the magnitude, and the sign under the header vsign -1 */
+    for (i = 0; i < nacc; i++) if (acc[i] == id) return vsign * (id + 1);
     return 0;
 }
 static void clr(void * e, void * p)
